@@ -18,7 +18,7 @@ ENGINE = os.path.join(ROOT, 'engine')
 
 CLANG_FLAGS = ['-std=c++17', '-O1', '-fno-exceptions', '-fno-rtti', '-fno-access-control',
                '-fno-vectorize', '-fno-slp-vectorize', '-fno-unroll-loops',
-               '-S', '-emit-llvm', '-I' + INC, '-I' + ENGINE, '-DJSONCONS_VERIF', '-w']
+               '-S', '-emit-llvm', '-I' + INC, '-I' + ENGINE, '-DJSONCONS_VERIF', '-D_GLIBCXX_ASSERTIONS', '-w']
 SAFETY_FLAGS = ['-fsanitize=signed-integer-overflow,shift,unreachable,bool,enum,bounds,integer-divide-by-zero,null',
                 '-fsanitize-trap=all']
 CBMC_BASE = ['--unwinding-assertions', '--drop-unused-functions', '--no-malloc-may-fail',
@@ -107,7 +107,7 @@ def selftest(kname, spec, info, seed):
     if not os.path.exists(st):
         return dict(ran=False)
     bd = info['dir']
-    cxx = ['g++', '-std=c++17', '-O1', '-I' + INC, '-I' + ENGINE, '-w', '-DJSONCONS_VERIF', '-DIRC_NATIVE']
+    cxx = ['g++', '-std=c++17', '-O1', '-I' + INC, '-I' + ENGINE, '-w', '-DJSONCONS_VERIF', '-D_GLIBCXX_ASSERTIONS', '-DIRC_NATIVE']
     cmds = [
         cxx + ['-fno-exceptions', '-fno-rtti', '-fno-access-control', '-c', os.path.join(kd, 'shim.cpp'), '-o', os.path.join(bd, 'shim.o')],
         ['gcc', '-O1', '-w', '-DIRC_NATIVE', '-I' + ENGINE, '-I' + kd, '-c', os.path.join(bd, 'kernel.c'), '-o', os.path.join(bd, 'kernel_c.o')],
@@ -204,6 +204,8 @@ def run_cbmc(job, info, witness=False):
         defs['KF_' + kf] = 1
     cmd = ['cbmc', os.path.join(kd, job.get('harness_file', 'harness.c')), '-I', info['dir'], '-I', ENGINE, '-I', kd,
            '--function', job['harness'], '--unwind', str(job['unwind'])] + CBMC_BASE
+    ob = job.get('object_bits', 12)
+    cmd += ['--object-bits', str(ob), '-D', 'IRC_OBJECT_BITS=%d' % ob]
     for us in job.get('unwindset', []):
         cmd += ['--unwindset', us]
     for k, v in defs.items():
@@ -218,6 +220,20 @@ def run_cbmc(job, info, witness=False):
     elif be in ('z3', 'cvc5'):
         cmd += ['--' + be]
     cmd += job.get('cbmc_extra', [])
+    if witness:
+        # check ONLY the witness assertion (everything else is sliced away): find its property id first
+        r0 = sh([c for c in cmd if c != '--trace'] + ['--show-properties'], timeout=300, mem_gb=8)
+        wid = None
+        try:
+            for x in json.loads(r0['out']):
+                for pr in x.get('properties', []) if isinstance(x, dict) else []:
+                    if pr.get('description', '').startswith('WITNESS'):
+                        wid = pr['name']
+        except Exception:
+            pass
+        if wid is None:
+            return dict(cmd=' '.join(cmd), wall=round(r0['wall'], 2), witness=True, status='error', why='no WITNESS assertion found in harness: ' + (r0['out'][-300:] + r0['err'][-300:]))
+        cmd += ['--property', wid]
     gb = job.get('mem_gb', 3)
     to = job.get('timeout', 300)
     if os.environ.get('VERIF_TIMEOUT_CAP'):
@@ -270,7 +286,7 @@ def run_cbmc(job, info, witness=False):
 _replay_built = {}
 _replay_lock = threading.Lock()
 SHIM_RP_FLAGS = ['-std=c++17', '-O1', '-g', '-fno-exceptions', '-fno-rtti', '-fno-access-control', '-fsanitize=address,undefined',
-                 '-fno-sanitize-recover=all', '-fno-omit-frame-pointer', '-I' + INC, '-I' + ENGINE, '-DJSONCONS_VERIF', '-w']
+                 '-fno-sanitize-recover=all', '-fno-omit-frame-pointer', '-I' + INC, '-I' + ENGINE, '-DJSONCONS_VERIF', '-D_GLIBCXX_ASSERTIONS', '-w']
 
 
 def build_replay(kname, harness_file, defs):
